@@ -49,6 +49,7 @@ def check(ctx: Ctx) -> None:
     ctx.rule("R17.1", "twin agreement: the pooled and the serial arm of every fan-out map the same worker over the same arguments and treat every result identically; num_procs flows only into Pool(...), validation and the tests selecting the arm")
     ctx.rule("R17.2", "results collected from imap_unordered are sorted with a key that is a total order on the candidates before a winner is picked")
     ctx.rule("R17.3", "randomness inventory: every draw from a global generator reachable from analysis/ is triaged; mock data draw only from RandomState(seed)")
+    ctx.rule("R17.5", "tasks do not modify objects they share: nothing reachable (without a copy) from a worker's argument tuple is mutated by the worker or its callees")
     ctx.rule("R17.4", "worker tuples: the packer and the unpacker agree on arity and, where both sides are plain names, on names")
 
     n_pool = 0
@@ -69,6 +70,8 @@ def check(ctx: Ctx) -> None:
             if iff is None or not any(w is s or any(w is x for x in ast.walk(s)) for s in iff.body):
                 ctx.instance("R17.1", f"{site} — no serial twin (always pooled)")
                 ctx.ok()
+                if pc.func.attr == "imap_unordered":
+                    _unordered(ctx, model, fi, w, pc)
                 continue
             if "num_procs" not in norm(iff.test):
                 raise AnalysisError(f"{fi.qual}: Pool under a test that does not mention num_procs: {norm(iff.test)}")
@@ -168,6 +171,34 @@ def check(ctx: Ctx) -> None:
         raise AnalysisError(f"R17.1: only {n_np} uses of num_procs found (floor 20)")
     ctx.instance("R17.1", f"{n_np} uses of num_procs: validation, Pool(...), arm selection, forwarding")
     ctx.ok()
+
+    # ---------------- R17.5 tasks do not modify what they share -----------------------------
+    n_w = 0
+    for q, fi in sorted(model.funcs.items()):
+        if not fi.module.startswith(AN):
+            continue
+        params = [a.arg for a in fi.node.args.args]
+        if len(params) != 1:
+            continue
+        unp = unpack_of_param(fi.node, params[0])
+        if unp is None:
+            continue
+        used_as_worker = any(isinstance(c.func, (ast.Name, ast.Attribute)) and dotted(c.func).split(".")[-1] in ("map", "imap", "imap_unordered", "_map")
+                             and c.args and norm(c.args[0]) == fi.node.name for f2 in model.funcs.values() if f2.module == fi.module for c in calls_in(f2.node))
+        if not used_as_worker:
+            continue
+        n_w += 1
+        ctx.instance("R17.5", f"worker {fi.qual}: shared task arguments are not modified")
+        hit = _shared_mutation(model, fi, {nm: nm for nm in unp}, 0, set())
+        if hit is not None:
+            node, how, where = hit
+            ctx.violation("R17.5", f"{fi.qual}:mutates-shared:{how.split(' ')[0]}", where, node,
+                          f"worker {fi.qual} modifies an object it shares with the other tasks ({how}): in the serial arm every task sees the previous tasks' changes, "
+                          f"in the pooled arm each task gets a pickled copy — serial and parallel runs diverge")
+        else:
+            ctx.ok()
+    if n_w < 5:
+        raise AnalysisError(f"R17.5: only {n_w} worker functions found (floor 5)")
 
     # ---------------- R17.3 -------------------------------------------------------------
     n_rand = 0
@@ -328,6 +359,18 @@ def _unordered(ctx: Ctx, model, fi, w: ast.With, pc: ast.Call) -> None:
     sinks = [norm(c.func.value) for s in lp.body for c in calls_in(s) if isinstance(c.func, ast.Attribute) and c.func.attr == "append"]
     if not sinks:
         raise AnalysisError(f"{fi.qual}: results of imap_unordered are not collected in a list")
+    # decisions taken while results are still arriving depend on the arrival order
+    early = []
+    for n in walk_ordered(lp):
+        if isinstance(n, ast.Break) and not isinstance(parent(n), ast.ExceptHandler):
+            iff = enclosing(n, ast.If)
+            if iff is not None and any(iff is x for x in ast.walk(lp)):
+                early.append(n)
+    if early:
+        ctx.instance("R17.2", f"{fi.qual}: early termination while consuming imap_unordered({norm(pc.args[0])})")
+        ctx.violation("R17.2", f"{fi.qual}:early-stop-on-arrival-order", fi.module, early[0],
+                      f"{fi.qual} stops consuming results of imap_unordered({norm(pc.args[0])}) under a condition on the results received so far: which results are "
+                      f"seen before the stop depends on worker completion order, so the returned set differs between runs and between num_procs values")
     sink = sinks[0]
     for cand in sinks:
         for c in calls_in(fi.node):
@@ -406,3 +449,93 @@ def _consumer_orders(model, fi, sink: str) -> bool:
                                 if "sorted(" in src or ".sort(" in src:
                                     return True
     return False
+
+
+_CONTAINER_MUT = {"pop", "update", "clear", "setdefault", "append", "extend", "insert", "remove", "sort", "reverse", "popitem", "add", "discard"}
+_OBJECT_MUT = {"set_values", "set_lower_limits", "set_upper_limits", "set_fixed", "set_label", "set_mask", "subtract_impedances", "reset_parameters", "set_subcircuits"}
+_COPIES = {"deepcopy", "copy", "list", "dict", "tuple", "sorted", "set", "array", "asarray"}
+
+
+def _shared_mutation(model, fi, tainted: Dict[str, str], depth: int, seen: set):
+    """Alias-level taint: names that ARE (not copies of) objects reachable from the task tuple."""
+    if depth > 3 or fi.qname in seen:
+        return None
+    seen = seen | {fi.qname}
+    t = dict(tainted)
+
+    binds: Dict[str, List[Tuple[Tuple[int, int], Optional[ast.AST], str]]] = {}
+
+    def pos(n):
+        return (getattr(n, "lineno", 0), getattr(n, "col_offset", 0))
+
+    for n in walk_ordered(fi.node):
+        if isinstance(n, (ast.Assign, ast.AnnAssign)) and n.value is not None:
+            tg = n.targets[0] if isinstance(n, ast.Assign) else n.target
+            if isinstance(tg, ast.Name):
+                binds.setdefault(tg.id, []).append((pos(n), n.value, "assign"))
+            elif isinstance(tg, (ast.Tuple, ast.List)):
+                for x in tg.elts:
+                    if isinstance(x, ast.Name):
+                        binds.setdefault(x.id, []).append((pos(n), None, "unpack"))
+        elif isinstance(n, (ast.For, ast.comprehension)):
+            for x in ast.walk(n.target):
+                if isinstance(x, ast.Name):
+                    binds.setdefault(x.id, []).append((pos(n) if isinstance(n, ast.For) else pos(n.iter), n.iter, "iter"))
+
+    def src(e: ast.AST, at=None, _d=0) -> Optional[str]:
+        if isinstance(e, ast.Name):
+            at = at or pos(e)
+            bs = [b for b in binds.get(e.id, []) if b[0] < at]
+            if bs and _d < 6:
+                p_, val, kind = bs[-1]
+                if kind == "unpack":
+                    return tainted.get(e.id)
+                return src(val, p_, _d + 1) if val is not None else None
+            return tainted.get(e.id)
+        if isinstance(e, ast.Subscript):
+            return src(e.value, at, _d)
+        if isinstance(e, ast.Attribute):
+            return src(e.value, at, _d)
+        if isinstance(e, ast.Call):
+            f = e.func
+            if isinstance(f, ast.Attribute) and f.attr in ("items", "values", "get", "get_elements", "get_connections") and not (isinstance(f.value, ast.Name) and f.value.id in _COPIES):
+                return src(f.value, at, _d)
+            return None
+        if isinstance(e, ast.IfExp):
+            return src(e.body, at, _d) or src(e.orelse, at, _d)
+        if isinstance(e, ast.BoolOp):
+            for v in e.values:
+                r = src(v, at, _d)
+                if r:
+                    return r
+        return None
+
+    for n in walk_ordered(fi.node):
+        if isinstance(n, ast.Call) and isinstance(n.func, ast.Attribute) and n.func.attr in (_CONTAINER_MUT | _OBJECT_MUT):
+            r = src(n.func.value)
+            if r:
+                return n, f"{norm(n)[:50]} on `{r}`", fi.module
+        if isinstance(n, (ast.Assign, ast.AugAssign)):
+            for tg in (n.targets if isinstance(n, ast.Assign) else [n.target]):
+                if isinstance(tg, ast.Subscript) and src(tg.value):
+                    if depth == 0 and isinstance(n, ast.Assign) and isinstance(tg.slice, ast.Constant) and n in fi.node.body:
+                        # the task (re)writes a fixed key of the shared mapping unconditionally before using it:
+                        # every task sees its own value, whatever ran before
+                        continue
+                    return n, f"{norm(tg)[:40]} = … on `{src(tg.value)}`", fi.module
+        if isinstance(n, ast.Delete):
+            for tg in n.targets:
+                if isinstance(tg, ast.Subscript) and src(tg.value):
+                    return n, f"del {norm(tg)[:40]} on `{src(tg.value)}`", fi.module
+        if isinstance(n, ast.Call):
+            callee = model.resolve_call(fi, n)
+            if callee and callee in model.funcs and callee != fi.qname:
+                cf = model.funcs[callee]
+                from ..prov import call_args
+                bound = call_args(n, cf.node, skip_self=cf.cls is not None)
+                sub = {p: src(a) for p, a in bound.items() if isinstance(a, ast.AST) and src(a)}
+                if sub:
+                    h = _shared_mutation(model, cf, sub, depth + 1, seen)
+                    if h is not None:
+                        return h
+    return None
